@@ -54,6 +54,7 @@ type Value struct {
 	K Kind
 	T types.Type
 	S string
+	Sort string // SMT sort for spec-level values without a Go type
 
 	// slice
 	Rid, Off, Len, Cap string
